@@ -302,6 +302,14 @@ def run_case(case: dict) -> CaseResult:
         except BaseException as e:  # noqa: BLE001
             viol.append(V(f"c19:start-while-IDLE:raised:{type(e).__name__}", repr(e)[:200]))
 
+    def rejected(order, step, what, i):
+        """The device refused the session (incompatible version; password flagged invalid on a login): no authenticated
+        session exists, so the call must not have succeeded -- whatever is issued afterwards would be written to it."""
+        devb = step.get("dev")
+        if devb == "badversion" or (devb == "badpass" and step.get("login", True)):
+            if any(n.startswith(what) and st2 == "ok" for n, st2, _ in order):
+                viol.append(V(f"c19:session-without-authentication:{devb}", f"step {i}: {what}() returned normally although the device answered with {devb} (client password {case.get('password')!r})"))
+
     async def main():
         for i, step in enumerate(case["steps"]):
             op = step["op"]
@@ -323,6 +331,8 @@ def run_case(case: dict) -> CaseResult:
                 order = await run_calls("finish", cli.finish_connection(login=bool(step.get("login", True))), step.get("interfere"))
                 if model["dead_started"] and any(n.startswith("finish") and s == "ok" for n, s, _ in order):
                     viol.append(V("c19:finish-succeeded-on-dead-connection", f"step {i}"))
+                if not model["dead_started"]:
+                    rejected(order, step, "finish", i)
                 apply(order, "finish")
             elif op == "connect":
                 if st_ != "IDLE":
@@ -331,7 +341,9 @@ def run_case(case: dict) -> CaseResult:
                 stats["sessions"] += 1
                 env.tcp_script = [{"ok": ("ok", 4 * D), "refuse": ("refuse", 2 * D), "hang": ("hang",)}[step.get("tcp", "ok")]]
                 set_device(step.get("dev"))
-                apply(await run_calls("connect", cli.connect(on_stop=on_stop, login=bool(step.get("login", True))), step.get("interfere")), "connect")
+                order = await run_calls("connect", cli.connect(on_stop=on_stop, login=bool(step.get("login", True))), step.get("interfere"))
+                rejected(order, step, "connect", i)
+                apply(order, "connect")
             elif op == "disconnect":
                 if st_ != "CONNECTED":
                     classes.add("close_before_connected")
